@@ -37,15 +37,15 @@ import (
 	"verifharness/internal/simkernel"
 )
 
-func (g *clientGen) socketCases() []CCase {
-	var out []CCase
+func (g *clientGen) socketCases() []KCase {
+	var out []KCase
 	// echo: payload lengths 0..8970 (boundaries and a spread), types above RTM_MAX, flags with extra bits, caller-set pid
 	lens := []int{0, 1, 2, 3, 4, 5, 7, 8, 15, 16, 17, 31, 32, 33, 100, 255, 256, 1000, 4095, 4096, 4097, 8000, 8969, 8970}
 	for i := 0; i < g.ctx.N(40, 400); i++ {
 		lens = append(lens, g.rng.Intn(8971))
 	}
 	for i, n := range lens {
-		c := CCase{Kind: "echo", Buf: hex.EncodeToString(g.bytesN(n)), Typ: uint16(1000 + g.rng.Intn(64000)), Flags: uint16(syscall.NLM_F_REQUEST | syscall.NLM_F_ACK)}
+		c := KCase{Kind: "echo", Buf: hex.EncodeToString(g.bytesN(n)), Typ: uint16(1000 + g.rng.Intn(64000)), Flags: uint16(syscall.NLM_F_REQUEST | syscall.NLM_F_ACK)}
 		switch i % 5 {
 		case 1:
 			c.Flags |= uint16(g.rng.Intn(1<<16)) &^ 0x300 // never a dump request
@@ -68,11 +68,11 @@ func (g *clientGen) socketCases() []CCase {
 			if n >= 16 { // a well-formed looking audit record, as an attacker would send
 				copy(b, dgram(uint32(n), []uint16{1300, 1305, 2, 1000}[g.rng.Intn(4)], 0, []uint32{0, 1, 7}[g.rng.Intn(3)], 0, b[16:]))
 			}
-			out = append(out, CCase{Kind: "spoof", Buf: hex.EncodeToString(b), Multicast: mc})
+			out = append(out, KCase{Kind: "spoof", Buf: hex.EncodeToString(b), Multicast: mc})
 		}
 	}
-	out = append(out, CCase{Kind: "concsend", Goroutines: 8, Calls: g.ctx.N(25000, 250000)})
-	out = append(out, CCase{Kind: "concsend", Goroutines: 2, Calls: g.ctx.N(50000, 500000)})
+	out = append(out, KCase{Kind: "concsend", Goroutines: 8, Calls: g.ctx.N(25000, 250000)})
+	out = append(out, KCase{Kind: "concsend", Goroutines: 2, Calls: g.ctx.N(50000, 500000)})
 	return out
 }
 
@@ -124,7 +124,7 @@ func (s *sockets) open(ctx *Ctx) {
 
 var echoSeq uint32 // the sequence number the ROUTE client used last (it starts at 0)
 
-func runEchoCase(ctx *Ctx, m *common.Model, c CCase, idx int) *common.Violation {
+func runEchoCase(ctx *Ctx, m *common.Model, c KCase, idx int) *common.Violation {
 	socks.open(ctx)
 	if socks.routeErr != nil {
 		socks.note(ctx, "route", "C18 echo clauses NOT explored: cannot open a NETLINK_ROUTE socket: "+socks.routeErr.Error())
@@ -255,7 +255,7 @@ func sizeBucket(n int) string {
 
 // ---- spoof -----------------------------------------------------------------------------------
 
-func runSpoofCase(ctx *Ctx, c CCase, idx int) *common.Violation {
+func runSpoofCase(ctx *Ctx, c KCase, idx int) *common.Violation {
 	socks.open(ctx)
 	if socks.userErr != nil || socks.sendErr != nil {
 		socks.note(ctx, "user", fmt.Sprintf("C18 non-kernel-sender clauses NOT explored: cannot open NETLINK_USERSOCK sockets: %v %v", socks.userErr, socks.sendErr))
@@ -295,7 +295,7 @@ func runSpoofCase(ctx *Ctx, c CCase, idx int) *common.Violation {
 		if err == nil || len(msgs) > 0 || len(data) > 0 {
 			return &common.Violation{Kind: "monitor", Clause: fmt.Sprintf("C18: Receive returned data for a datagram of %d bytes sent by a non-kernel netlink socket (%s)",
 				len(b), map[bool]string{false: "unicast", true: "multicast"}[c.Multicast]), Input: c,
-				Impl: fmt.Sprintf("msgs=%d err=%v parser-called-with=%s", len(msgs), err, hexList(data)), Case: idx}
+				Impl: fmt.Sprintf("msgs=%d err=%v parser-called-with=%s", len(msgs), err, kHexList(data)), Case: idx}
 		}
 		if errors.Is(err, syscall.EAGAIN) || errors.Is(err, syscall.EINTR) {
 			if got > 0 {
@@ -314,7 +314,7 @@ func runSpoofCase(ctx *Ctx, c CCase, idx int) *common.Violation {
 
 // ---- concurrent Send ----------------------------------------------------------------------------
 
-func runConcSendCase(ctx *Ctx, c CCase, idx int) *common.Violation {
+func runConcSendCase(ctx *Ctx, c KCase, idx int) *common.Violation {
 	nl, err := libaudit.NewNetlinkClient(syscall.NETLINK_USERSOCK, 0, nil, nil)
 	if err != nil {
 		socks.note(ctx, "concsend", "C18 concurrent Send clause NOT explored: cannot open a NETLINK_USERSOCK socket: "+err.Error())
@@ -375,7 +375,7 @@ func runConcSendCase(ctx *Ctx, c CCase, idx int) *common.Violation {
 
 // ---- concurrent Close ----------------------------------------------------------------------------
 
-func runConcCloseCase(ctx *Ctx, c CCase, idx int) *common.Violation {
+func runConcCloseCase(ctx *Ctx, c KCase, idx int) *common.Violation {
 	ctx.Res.Count(c.canon(), true)
 	ctx.Res.Hist("concclose")
 	for it := 0; it < c.Iters; it++ {
